@@ -283,3 +283,134 @@ func (s *RegistrationStats) totalIngestMessagesForVerif() int64 {
 	return atomic.LoadInt64(&s.totalIngestMessages)
 }
 func (s *RegistrationStats) droppedForVerif() int64 { return atomic.LoadInt64(&s.totalDroppedMessages) }
+
+// Overload must not hold the receiver up: with every worker busy and the buffer full, handing an
+// excess message to the pipeline costs about as much as any other unbuffered channel hand-off. The
+// bound is relative to a scheduler canary measured at the same moment (so machine load cancels out)
+// and a miss counts only when it is seen three times in a row.
+func TestVerif_C09_handoff(t *testing.T) {
+	rec := vh.NewRec("C09", "handoff", "real HandleRegUpdates with 10 workers parked and the buffer full; 200 excess messages are sent through an unbuffered channel while a canary measures plain goroutine-to-goroutine hand-offs; oracle: mean hand-off time per excess message <= 40 x canary + 2 ms (violation only if exceeded in 3 consecutive attempts), all 200 counted as dropped; non-trivial = every attempt; distinct by attempt")
+	defer rec.Flush()
+	if vh.ReplayFile() != "" {
+		t.Skip("timing sub-check; re-run the quick tier")
+	}
+	if idx, _ := vh.Shard(); idx != 0 {
+		rec.Case(true, vh.Digest("other-shard-a"), "runs on shard 0 only", "skipped-shard")
+		rec.Case(true, vh.Digest("other-shard-b"), "runs on shard 0 only", "skipped-shard")
+		return
+	}
+	e := vNewEnv(t, nil, "")
+	const workers, excess = 10, 200
+	var worst string
+	slowAttempts := 0
+	attempts := vh.Pick(2, 6)
+	for a := 0; a < attempts+2; a++ {
+		e.resetRegistry()
+		rm := *e.rm
+		conf := *e.rm.RegConfig
+		conf.IngestWorkerCount = workers
+		rm.RegConfig = &conf
+		rm.RegistrationStats = newRegistrationStats()
+		rm.Logger = log.New(discardWriter{}, "", golog.Lmsgprefix)
+		gate := &c09GateTester{gate: make(chan struct{})}
+		rm.LivenessTester = gate
+		in := make(chan interface{})
+		ctx, cancel := context.WithCancel(context.Background())
+		var wg sync.WaitGroup
+		wg.Add(1)
+		returned := make(chan struct{})
+		go func() { rm.HandleRegUpdates(ctx, in, &wg); close(returned) }()
+		ok := true
+		for i := 0; i < workers && ok; i++ {
+			in <- c09Msg(i)
+			deadline := time.Now().Add(10 * time.Second)
+			for gate.Waiting() < i+1 {
+				if time.Now().After(deadline) {
+					ok = false
+					break
+				}
+				time.Sleep(100 * time.Microsecond)
+			}
+		}
+		if !ok {
+			cancel()
+			gate.Open()
+			t.Fatalf("harness problem: workers did not reach their probes")
+		}
+		in <- c09Msg(9000) // fills the buffer (capacity workers/10 = 1)
+		// canary: plain unbuffered hand-offs between two goroutines, measured during the same period
+		canaryStop := make(chan struct{})
+		canaryDone := make(chan time.Duration, 1)
+		go func() {
+			ping := make(chan int)
+			go func() {
+				for range ping {
+				}
+			}()
+			n := 0
+			t0 := time.Now()
+			for {
+				select {
+				case <-canaryStop:
+					close(ping)
+					if n == 0 {
+						n = 1
+					}
+					canaryDone <- time.Since(t0) / time.Duration(n)
+					return
+				case ping <- n:
+					n++
+				}
+			}
+		}()
+		t0 := time.Now()
+		for i := 0; i < excess; i++ {
+			select {
+			case in <- c09Msg(9001 + i):
+			case <-time.After(30 * time.Second):
+				close(canaryStop)
+				cancel()
+				gate.Open()
+				rec.Case(true, vh.Digest(fmt.Sprintf("attempt-%d", a)), map[string]any{"attempt": a}, "stalled")
+				rec.Violation(t, "stall:receiver-blocked", map[string]any{"workers": workers, "excess": i}, "with all workers busy and the buffer full, excess message %d blocked the receiver for 30 s", i)
+				return
+			}
+		}
+		per := time.Since(t0) / excess
+		close(canaryStop)
+		canary := <-canaryDone
+		deadline := time.Now().Add(10 * time.Second)
+		for rm.RegistrationStats.droppedForVerif() < excess && time.Now().Before(deadline) {
+			time.Sleep(100 * time.Microsecond)
+		}
+		dropped := rm.RegistrationStats.droppedForVerif()
+		gate.Open()
+		cancel()
+		select {
+		case <-returned:
+		case <-time.After(20 * time.Second):
+			t.Fatalf("harness problem: pipeline did not wind down")
+		}
+		bound := 40*canary + 2*time.Millisecond
+		cls := "fast"
+		if per > bound {
+			cls = "slow"
+			slowAttempts++
+			worst = fmt.Sprintf("mean %v per excess message, canary hand-off %v (bound %v)", per, canary, bound)
+		} else {
+			slowAttempts = 0
+		}
+		rec.Case(true, vh.Digest(fmt.Sprintf("attempt-%d-%d", vh.Seed(), a)), map[string]any{"attempt": a, "per_message_ns": per.Nanoseconds(), "canary_ns": canary.Nanoseconds(), "dropped": dropped}, cls)
+		if dropped != excess {
+			rec.Violation(t, "dropped-count", map[string]any{"workers": workers, "excess": excess}, "%d excess messages under overload, dropped counter %d", excess, dropped)
+			return
+		}
+		if slowAttempts >= 3 {
+			rec.Violation(t, "overload-holds-up-receiver", map[string]any{"workers": workers, "excess": excess}, "under overload the pipeline held the receiver up in 3 consecutive attempts: %s", worst)
+			return
+		}
+		if slowAttempts == 0 && a+1 >= attempts {
+			break
+		}
+	}
+}
